@@ -37,6 +37,7 @@ type Loaded struct {
 	funcIndex map[string]*ssa.Function // fnKey -> function (incl. closures)
 	// element types T for which a pointer to a slice element escapes (is stored, returned, merged ...)
 	elemPtrTypes map[string]bool
+	poolNew      map[*ssa.Global]*ssa.Function
 }
 
 func loadRepo(repo string, patterns []string) (*Loaded, error) {
@@ -343,4 +344,69 @@ func (ld *Loaded) ifaceContract(t types.Type, method string) *FuncContract {
 		return nil
 	}
 	return cf.Ifaces[n.Obj().Name()+"."+method]
+}
+
+// poolNewFuncs: package-level sync.Pool variables initialised with a composite literal, and their New functions
+// (found in the package initialisers: t = local sync.Pool; *(&t.New) = f; *global = *t).
+func (ld *Loaded) poolNewFuncs() map[*ssa.Global]*ssa.Function {
+	if ld.poolNew != nil {
+		return ld.poolNew
+	}
+	ld.poolNew = map[*ssa.Global]*ssa.Function{}
+	for _, sp := range ld.prog.AllPackages() {
+		initF := sp.Func("init")
+		if initF == nil {
+			continue
+		}
+		if os.Getenv("GOVC_DEBUG") == "3" && strings.Contains(sp.Pkg.Path(), "flexfec") {
+			fmt.Fprintf(os.Stderr, "init of %s: %d blocks\n", sp.Pkg.Path(), len(initF.Blocks))
+		}
+		newOf := map[ssa.Value]*ssa.Function{} // alloc -> New function
+		for _, b := range initF.Blocks {
+			for _, ins := range b.Instrs {
+				st, ok := ins.(*ssa.Store)
+				if !ok {
+					continue
+				}
+				if os.Getenv("GOVC_DEBUG") == "3" && strings.HasSuffix(sp.Pkg.Path(), "flexfec") {
+					fmt.Fprintf(os.Stderr, "  store %T <- %T (%s)\n", st.Addr, st.Val, st.Val)
+				}
+				if fa, ok := st.Addr.(*ssa.FieldAddr); ok {
+					pt, ok := fa.X.Type().Underlying().(*types.Pointer)
+					if !ok {
+						continue
+					}
+					stt, ok := pt.Elem().Underlying().(*types.Struct)
+					if !ok || fa.Field >= stt.NumFields() || stt.Field(fa.Field).Name() != "New" {
+						continue
+					}
+					if n, ok := pt.Elem().(*types.Named); !ok || n.Obj().Pkg() == nil || n.Obj().Pkg().Path() != "sync" || n.Obj().Name() != "Pool" {
+						continue
+					}
+					if g, isG := fa.X.(*ssa.Global); isG {
+						if f, ok := st.Val.(*ssa.Function); ok {
+							ld.poolNew[g] = f
+						}
+						continue
+					}
+					switch v := st.Val.(type) {
+					case *ssa.Function:
+						newOf[fa.X] = v
+					case *ssa.MakeClosure:
+						if f, ok := v.Fn.(*ssa.Function); ok && len(v.Bindings) == 0 {
+							newOf[fa.X] = f
+						}
+					}
+				}
+				if g, ok := st.Addr.(*ssa.Global); ok {
+					if u, ok := st.Val.(*ssa.UnOp); ok {
+						if f := newOf[u.X]; f != nil {
+							ld.poolNew[g] = f
+						}
+					}
+				}
+			}
+		}
+	}
+	return ld.poolNew
 }
